@@ -25,6 +25,9 @@ PORT_TEXTS_BAD = ["-1", "65536", "10000000000", "x", "8x", "80x", "0x50", "1.0",
 PORT_TEXTS_LENIENT = ["+80", "8_0", " 80", "80 ", "٨٠", "０", "00080", "+0"]
 PORT_TEXTS_ZEROS = ["080", "0080", "00", "0443", "021"]
 
+# parts also run by 4 threads at once in one process (runner adds the jobs; see yv/ctx.py Ctx.threaded)
+SHARED = [("shapes", {"stride": 100}, {"stride": 5})]
+
 
 def plan(tier, seed):
     jobs = []
